@@ -553,7 +553,7 @@ class Tr:
             for e, ta in args[1:]:
                 acc = f"({f} {acc} {self.coerce(e, ta, t)})"
             return acc, t
-        if fname in ("np.min", "np.max", "np.nanmin", "np.nanmax") and len(args) == 1 and isinstance(args[0][1], tuple) \
+        if fname in ("min", "max", "np.min", "np.max", "np.nanmin", "np.nanmax") and len(args) == 1 and isinstance(args[0][1], tuple) \
                 and args[0][1][0] == "tuple":
             e, t = args[0]
             n = len(t[1])
@@ -1124,6 +1124,17 @@ SPECS = [
          guard=lambda fn: len(fn.body) == 3 and _same(fn.body[0], "if isinstance(mask_area, (np.ndarray, da.Array, DataArray)):\n    return mask_area")
          and _same(fn.body[2], "if mask_area:\n    return self.compute_data_mask(data)"),
          owners=["C05"]),
+    dict(name="kd_default_segments", file="pyresample/kd_tree.py", func="get_neighbour_info", mode="fragment",
+         params=[("segments", opt(INT)), ("target_geo_def.size", INT)], outputs=["segments"], output_types={"segments": INT},
+         select=lambda fn: [st for st in fn.body if isinstance(st, ast.If) and ast.unparse(st.test) == "segments is None"],
+         guard=lambda fn: sum(1 for st in fn.body if isinstance(st, ast.If) and ast.unparse(st.test) == "segments is None") == 1,
+         owners=["C02", "C03", "C04"]),
+    dict(name="gradient_block_too_thin", file="pyresample/gradient/__init__.py", func="gradient_resampler_indices",
+         params=[("source_area.shape", tup(INT, INT))], returns=BOOL,
+         select=lambda fn: [ast.Return(value=fn.body[1].test)],
+         guard=lambda fn: isinstance(fn.body[1], ast.If) and not fn.body[1].orelse and len(fn.body[1].body) == 1
+         and _same(fn.body[1].body[0], "return np.full((2,) + tuple(target_area.shape), np.nan)"),
+         owners=["C09"]),
     # ---- C11 -----------------------------------------------------------------------------------
     dict(name="expand_slice", file="pyresample/slicer.py", func="expand_slice",
          params=[("small_slice", sl(INT))], returns=sl(INT), select=_whole, owners=["C11"]),
